@@ -12,7 +12,9 @@ import (
 	"time"
 
 	"github.com/docker/cli/cli/command"
+	"github.com/docker/cli/cli/streams"
 	"github.com/docker/docker/client"
+	"github.com/spf13/cobra"
 
 	"github.com/tdakkota/docker-logql/internal/lokiapi"
 	"github.com/tdakkota/docker-logql/internal/zzverif/fakedocker"
@@ -386,7 +388,7 @@ func c16Run(r *vkit.Run) {
 			r.NonTrivial()
 		}
 	})
-	r.Note("bounds", fmt.Sprintf("instants: every %d s between 2001 and 2200 plus +-3 s around digit-length and 32-bit boundaries, in 5 spellings, as --start and as --end; all 1000 ms fractions of 3 base seconds in 4 spellings; 12 spans x 4 clocks x 16 flag subsets x 8 since (incl. zero) x 8 step spellings; 11+9 malformed spellings per flag; 10 non-positive steps; every value travels through the command's own flag set (pflag parsing, APIFlag.Set); end to end (argv -> request sent to the fake daemon and printed records): 2 starts x 4 spans (incl. start = end) x all spelling pairs x 2 argv forms, and --end with --since", stride))
+	r.Note("bounds", fmt.Sprintf("instants: every %d s between 2001 and 2200 plus +-3 s around digit-length and 32-bit boundaries, in 5 spellings, as --start and as --end; all 1000 ms fractions of 3 base seconds in 4 spellings; 12 spans x 4 clocks x 16 flag subsets x 8 since (incl. zero) x 8 step spellings; 11+9 malformed spellings per flag; 10 non-positive steps; every value travels through the command's own flag set (pflag parsing, APIFlag.Set); end to end (argv -> request sent to the fake daemon and printed records): 2 starts x 4 spans (incl. start = end) x all spelling pairs x 2 argv forms, and --end with --since; every end-to-end command line both at queryCmd and through rootCmd of main.go under a top-level command carrying the CLI's streams", stride))
 }
 
 // ---- end to end: the command itself, from argv to the request sent to the daemon ----
@@ -394,8 +396,11 @@ func c16Run(r *vkit.Run) {
 // c16CLI is a command.Cli whose only usable method is Client.
 type c16CLI struct {
 	command.Cli
-	c client.APIClient
+	c   client.APIClient
+	out *streams.Out
 }
+
+func (c c16CLI) Out() *streams.Out { return c.out }
 
 func (c c16CLI) Client() client.APIClient { return c.c }
 
@@ -407,6 +412,9 @@ type c16E2EInput struct {
 	// Metric: the query is count_over_time({container="n0"}[1m]) instead: the command evaluates it (and then refuses to
 	// render a matrix); the daemon must have been asked for [start - 1m, end]
 	Metric bool `json:"metric,omitempty"`
+	// Plugin: the command is reached the way the plugin host reaches it (top-level command carrying the CLI's streams,
+	// rootCmd of main.go below it, "query" below that) instead of queryCmd alone
+	Plugin bool `json:"plugin,omitempty"`
 }
 
 type c16E2EObs struct {
@@ -440,16 +448,27 @@ func c16E2EExec(in c16E2EInput) (o c16E2EObs) {
 	}()
 	recs, _ := c16E2ERecords(in.StartSec, in.EndSec)
 	fake := fakedocker.New([]fakedocker.Container{{ID: "id0", Name: "/n0", Image: "img", State: "running", Log: fakedocker.Encode(recs)}})
-	cmd := queryCmd(c16CLI{c: fake})
 	var out bytes.Buffer
-	cmd.SetOut(&out)
-	cmd.SetErr(&bytes.Buffer{})
-	cmd.SilenceUsage, cmd.SilenceErrors = true, true
 	query := `{container="n0"}`
 	if in.Metric {
 		query = `count_over_time({container="n0"}[1m])`
 	}
-	cmd.SetArgs(append(append([]string{}, in.Args...), "--color=false", "--timestamp=false", "--container=false", query))
+	args := append(append([]string{}, in.Args...), "--color=false", "--timestamp=false", "--container=false", query)
+	var cmd *cobra.Command
+	if in.Plugin {
+		dcli := c16CLI{c: fake, out: streams.NewOut(&out)}
+		cmd = &cobra.Command{Use: "docker [OPTIONS] logql [ARG...]", TraverseChildren: true}
+		cmd.SetOut(dcli.Out())
+		cmd.SetErr(&bytes.Buffer{})
+		cmd.AddCommand(rootCmd(dcli))
+		args = append([]string{"logql", "query"}, args...)
+	} else {
+		cmd = queryCmd(c16CLI{c: fake})
+		cmd.SetOut(&out)
+		cmd.SetErr(&bytes.Buffer{})
+	}
+	cmd.SilenceUsage, cmd.SilenceErrors = true, true
+	cmd.SetArgs(args)
 	if err := cmd.ExecuteContext(context.Background()); err != nil {
 		o.Err = err.Error()
 		if !in.Metric || !strings.Contains(o.Err, "unsupported result") {
@@ -489,6 +508,12 @@ func c16E2ECheck(r *vkit.Run, in c16E2EInput) {
 }
 
 func c16E2ERun(r *vkit.Run, one func(fn func(), nontrivial bool)) {
+	// every command line is run twice: queryCmd alone, and through the plugin's root command
+	both := func(in c16E2EInput) {
+		one(func() { c16E2ECheck(r, in) }, true)
+		in.Plugin = true
+		one(func() { c16E2ECheck(r, in) }, true)
+	}
 	// explicit --start and --end in every spelling pair; --end with --since; all in the past, so the
 	// wall clock (which RunE reads itself) has no influence on the expected window
 	for _, startSec := range []int64{999999990, 1700000000} {
@@ -503,14 +528,14 @@ func c16E2ERun(r *vkit.Run, one func(fn func(), nontrivial bool)) {
 							args = []string{"--end", en, "--start", st}
 						}
 						in := c16E2EInput{Args: args, StartSec: startSec, EndSec: endSec, WantLines: inside}
-						one(func() { c16E2ECheck(r, in) }, true)
+						both(in)
 					}
 				}
 			}
 			for _, en := range c16Spellings(endSec * 1e9) {
 				for _, si := range []string{fmt.Sprintf("%ds", span), fmt.Sprintf("%dms", span*1000)} {
 					in := c16E2EInput{Args: []string{"--since=" + si, "--end=" + en, "--step=15s"}, StartSec: startSec, EndSec: endSec, WantLines: inside}
-					one(func() { c16E2ECheck(r, in) }, true)
+					both(in)
 				}
 			}
 		}
@@ -524,10 +549,10 @@ func c16E2ERun(r *vkit.Run, one func(fn func(), nontrivial bool)) {
 		for _, step := range []string{"1", "1s", "500ms", "0.25", "7", "1m", "13m"} {
 			args := []string{"--start=" + strconv.FormatInt(startSec, 10), "--end=" + strconv.FormatInt(endSec, 10), "--step=" + step}
 			in := c16E2EInput{Args: args, StartSec: startSec, EndSec: endSec, WantLines: inside}
-			one(func() { c16E2ECheck(r, in) }, true)
+			both(in)
 			if span == 3600 && step != "1" && step != "1s" && step != "500ms" && step != "0.25" {
 				inm := c16E2EInput{Args: args, StartSec: startSec, EndSec: endSec, Metric: true}
-				one(func() { c16E2ECheck(r, inm) }, true)
+				both(inm)
 			}
 		}
 	}
@@ -538,7 +563,7 @@ func c16E2ERun(r *vkit.Run, one func(fn func(), nontrivial bool)) {
 		for _, st := range c16Spellings(startSec*1e9 + frac*1e6) {
 			for _, en := range c16Spellings(endSec*1e9 + frac*1e6) {
 				in := c16E2EInput{Args: []string{"--start=" + st, "--end=" + en}, StartSec: startSec, EndSec: endSec, WantLines: inside}
-				one(func() { c16E2ECheck(r, in) }, true)
+				both(in)
 			}
 		}
 	}
@@ -548,7 +573,7 @@ func c16E2ERun(r *vkit.Run, one func(fn func(), nontrivial bool)) {
 		_, inside := c16E2ERecords(startSec, future)
 		for _, en := range c16Spellings(future * 1e9) {
 			in := c16E2EInput{Args: []string{"--start=" + strconv.FormatInt(startSec, 10), "--end=" + en}, StartSec: startSec, EndSec: future, WantLines: inside}
-			one(func() { c16E2ECheck(r, in) }, true)
+			both(in)
 		}
 		_, inside2 := c16E2ERecords(startSec, startSec+3600)
 		for _, args := range [][]string{
@@ -556,7 +581,7 @@ func c16E2ERun(r *vkit.Run, one func(fn func(), nontrivial bool)) {
 			{"--since", "2h", "--end", strconv.FormatInt(startSec+3600, 10), "--start", strconv.FormatInt(startSec, 10), "--step", "30"},
 		} {
 			in := c16E2EInput{Args: args, StartSec: startSec, EndSec: startSec + 3600, WantLines: inside2}
-			one(func() { c16E2ECheck(r, in) }, true)
+			both(in)
 		}
 	}
 	r.GlobalState("end-to-end")
